@@ -362,3 +362,36 @@ def r2m(fb, rep):
         rep.ok(R, "do_zip_match: a single treatment of field order (%s)" % ("positional" if ordered else "by name"))
     else:
         rep.anchor_lost(R, "row cases of do_zip_match")
+
+
+def r2n(fb, rep):
+    """R2n — a skolem (rigid type variable) is identified by its id, never by its name.  Two signatures may both say `forall a`;
+    the skolems they introduce share the name and nothing else.  A unifier that also accepts `l.name == r.name` lets a value
+    typed by the outer `a` flow into a position typed by an inner, shadowing `a` (`let g y : forall a . a -> a = x`): the
+    program is accepted at a type its value does not have.  Rule: in the type unifier (`check/src/unify_type.rs`) the
+    Skolem-Skolem case compares the `id` fields, and no equality test anywhere in that file has a `Skolem.name` on both sides."""
+    R = "R2n"
+    rep.rule(R, "the unifier identifies skolems by id, never by name")
+    SK = "gluon_base::types::Skolem"
+    n_id = 0
+    bad = []
+    for b in fb.bodies.values():
+        if b.crate.name != "gluon_check" or not b.file.endswith("check/src/unify_type.rs"):
+            continue
+        for i, j, pl, rv, ln in b.assigns():
+            if rv[0] == "bin" and rv[1] in ("Eq", "Ne"):
+                l, r_ = flow.sources(b, rv[2], depth=8), flow.sources(b, rv[3], depth=8)
+                if ("field", SK, "id") in l and ("field", SK, "id") in r_:
+                    n_id += 1
+        for c in b.calls():
+            last = c.res.rsplit("::", 1)[-1]
+            if last in ("eq", "ne") and "PartialEq" in c.res and len(c.args) >= 2:
+                l, r_ = flow.sources(b, c.args[0], depth=8), flow.sources(b, c.args[1], depth=8)
+                if ("field", SK, "name") in l and ("field", SK, "name") in r_:
+                    bad.append((b, c))
+    for b, c in bad:
+        rep.violation(R, "skolems-unified-by-name|%s" % b.id.split("::{closure")[0].rsplit("::", 1)[-1], "%s compares the names of two skolems: rigid variables of different "
+                      "signatures that merely share a name (`forall a` twice) unify, so a program is accepted at a type its value does not have" % b.id, c.where())
+    if not bad and n_id:
+        rep.ok(R, "unify_type.rs: skolems are compared by id (%d comparison(s)); no name-to-name comparison" % n_id)
+    rep.floor(R, "skolem id comparisons in the unifier", n_id, 1)
